@@ -118,6 +118,19 @@ func c17Check(cfg RouterCfg, hist []Op, r *Router, t *ref.Table, c *explore.Chil
 	for _, x := range c17Calls(t, pool) {
 		verdict, why := t.Judge(x.P, x.Ms)
 		if verdict == ref.Accept {
+			// the positive clause in this (possibly restructured) state, once per pattern: a valid call is accepted
+			if len(x.Ms) == 2 && x.Ms[0] == "POST" && x.Ms[1] == "GET" {
+				r2, _, _ := buildHistory(cfg, hist)
+				c.Probes++
+				if pv, paniced := Guard(func() { r2.Handle(x.P, hv.Route("h:accepted"), nil, x.Ms...) }); paniced {
+					class := "false-ambiguity"
+					if !strings.Contains(fmt.Sprint(pv), "歧义") {
+						class = "valid-call-rejected"
+					}
+					c.Viols = append(c.Viols, explore.Violation{Property: "C17", Clause: "C17.never-ambiguous", Class: class, Config: cfg.String(), History: hs, Probe: x.String(), Observed: fmt.Sprintf("panic: %v", pv),
+						Expected: "accepted: the pattern is well-formed, the method list valid, and no live route is identical to it up to parameter names; live: " + strings.Join(t.Patterns(), " ")})
+				}
+			}
 			continue
 		}
 		r2, _, _ := buildHistory(cfg, hist) // an identical copy of the state: the call may change it
@@ -181,6 +194,28 @@ var c17Pool = append(append([]string{}, c04Pool...), "/p/{x}/z")
 
 var c17Spec = &histSpec{Prop: "C17", Alphabet: c17Alphabet, Check: func(cfg RouterCfg, hist []Op, r *Router, t *ref.Table, c *explore.Child, outc map[string]struct{}) {
 	c17Check(cfg, hist, r, t, c, outc, c17Pool, c17Paths(c17Pool))
+}}
+
+// c17RulePool: constrained parameters (regexp and interceptor) with two routes below them, so that the literal text
+// after the parameter gets split and stays split when one of the two is removed. In such states a rename of the
+// remaining route is still ambiguous, and a pattern with a different rule at the same place is still not.
+var c17RulePool = []string{"/p/{x:\\d+}/y", "/p/{x:\\d+}/z", "/p/{x:digit}/y", "/p/{x:digit}/z", "/p/{x:\\d+}"}
+
+func c17RuleAlphabet() []Op {
+	var ops []Op
+	for _, p := range c17RulePool {
+		ops = append(ops, Op{K: "handle", P: p, Ms: []string{"GET"}})
+	}
+	for _, p := range c17RulePool {
+		ops = append(ops, Op{K: "remove", P: p})
+	}
+	return append(ops, Op{K: "remove", P: "/p/{x:\\d+}/y", Ms: []string{"GET"}})
+}
+
+var c17RuleSpec = &histSpec{Prop: "C17", Alphabet: c17RuleAlphabet, Check: func(cfg RouterCfg, hist []Op, r *Router, t *ref.Table, c *explore.Child, outc map[string]struct{}) {
+	pool := append(append([]string{}, c17RulePool...), "/p/{s:word}/y", "/p/{s:[0-9]+}/z", "/p/{s}/y", "/p/{s:word}/z", "/p/{-x:digit}/y")
+	paths := []string{"/p/1/y", "/p/1/z", "/p/a/y", "/p/12", "/p/1/", "/p/1/y/y"}
+	c17Check(cfg, hist, r, t, c, outc, pool, paths)
 }}
 
 // ---- positive clauses over pattern pairs ----
@@ -278,6 +313,7 @@ func c17PairPool(ic string) []string {
 
 func init() {
 	c17Spec.register("c17/expand")
+	c17RuleSpec.register("c17/expand-rules")
 	explore.RegisterJob("c17/pairs", pairJob)
 	explore.Register(&explore.Check{ID: "C17", Run: func(rc *explore.RunCtx) {
 		depth := 2
@@ -288,10 +324,13 @@ func init() {
 		rc.Assume = append(rc.Assume,
 			"states: every history over the C04 alphabet up to the depth bound (dedup on the reflective key), with and without WithTrace",
 			"in every state every call of the rejected-call set X (duplicates, method lists with duplicate/unknown/reserved members in any position, malformed patterns sharing a prefix with live routes, rename-only patterns) is performed on a replayed copy; Routes(), all dispatch outcomes incl. Allow headers and OPTIONS * are compared before/after",
+			"a second history family (depth+1, interceptors I1) over routes below regexp and interceptor parameters that split and re-join the literal text after the parameter; in every state renames of live routes must be rejected and same-shape patterns with a different rule (and every other valid call of X with the list [POST GET]) must be accepted",
 			"positive clauses: every ordered pair over the dispatch pool and its renamed / '-'-flipped variants under I0/I1/I2")
 		for _, cfg := range []RouterCfg{{}, {Trace: true}} {
 			explore.BFS(rc, "c17/expand", histCfg{Router: cfg}, depth, true, "C17 "+cfg.String())
 		}
+		// constrained parameters whose literal suffix is split by a sibling route and stays split after its removal
+		explore.BFS(rc, "c17/expand-rules", histCfg{Router: RouterCfg{IC: "I1"}}, depth+1, true, "C17 constrained-parameter histories")
 		var items []pairItem
 		for _, ic := range []string{"", "I1", "I2"} {
 			pool := c17PairPool(ic)
